@@ -41,6 +41,10 @@
    (it was created and deleted again).  A client-invented name is never a server-generated key, so a call site
    with check = "known" must reject it in every state.
 
+   Occurrence (APIs whose request can carry several names): the hostile name is evaluated at its FIRST and at a REPEATED use
+   within one request.  A call site in CacheBeforeGuard memoises the resolved name in a per-request map before it validates
+   it: the repeated use hits the cache and skips the validation (none in the code as it is).
+
    GuardMode = "all" models every call site rejecting a name whose cleaned path leaves its base directory;
    GuardMode = "ascode" uses the per-API `guard` field = the code as it is. *)
 EXTENDS Integers, Sequences, FiniteSets, TLC
@@ -48,6 +52,7 @@ EXTENDS Integers, Sequences, FiniteSets, TLC
 CONSTANTS MaxLen,          \* maximal number of segment classes in a name
           GuardMode,       \* "all" | "ascode"
           NormAfterGuard,  \* set of api names whose call site normalises the name between validation and use
+          CacheBeforeGuard, \* set of api names whose call site memoises the name in a per-request cache BEFORE validating it
           Classes          \* the segment classes names are built from (AllClasses, or a subset for a quick export)
 
 AllClasses == {"plain", "dot", "up", "sep", "abs", "encsep", "nul", "long", "lkdot", "lkup", "lksep"}
@@ -55,15 +60,17 @@ CoreClasses == {"plain", "up", "sep", "abs", "encsep", "lkup", "lksep"}
 AllApiNames == {"lookup-upload", "lookup-get", "lookup-delete", "inputlookup", "bulk-index", "put-index", "doc-index", "alias-put",
                 "aliases-add", "aliases-remove", "alias-get", "index-delete", "dashboard-get", "dashboard-fav", "dashboard-update",
                 "dashboard-delete", "folder-create", "folder-get", "folder-delete", "usq-save", "usq-delete", "metric-name", "scroll-id",
-                "metric-tagkey", "alert-get", "alert-delete", "contact-delete"}
+                "metric-tagkey", "alert-get", "alert-delete", "contact-delete", "otlp-logs-index", "hec-index"}
 NoApis == {}
 
 (* transport, validation, construction, effect; suffix = the call site appends an extension to the name (so a trailing ".."
    becomes the word "..ext"); base = depth of the base directory below the data directory; guard = the call site rejects
    names that are not a single path component (state of the code: the lookups / inputlookup / index+alias / tag-key fixes are
    in; the dashboards package has no such check); store = id-keyed store (history dimension) *)
+MultiNameApis == {"bulk-index", "otlp-logs-index", "hec-index", "aliases-add", "aliases-remove", "metric-tagkey", "metric-name"}
 Api(n, t, c, b, e, sfx, d, g, st) ==
-  [api |-> n, transport |-> t, check |-> c, build |-> b, effect |-> e, suffix |-> sfx, base |-> d, guard |-> g, store |-> st]
+  [api |-> n, transport |-> t, check |-> c, build |-> b, effect |-> e, suffix |-> sfx, base |-> d, guard |-> g, store |-> st,
+   multi |-> n \in MultiNameApis]      \* multi: one request can carry several names (action lines, resources, events, datapoints)
 Apis == {
   \* pkg/lookups/lookups.go UploadLookupFile: name := multipart form value; isPlainFileName; ".csv" appended; filepath.Join(lookupDir, name)
   Api("lookup-upload",    "body",      "none",      "join",   "write",  TRUE,  1, TRUE,  FALSE),
@@ -75,6 +82,12 @@ Apis == {
   \* esBulkHandler.go: _index -> ProcessIndexRequestPle (IsNameSafeForPath) -> vtable.AddVirtualTable; at flush config.GetBaseSegDir:
   \* DataPath + host + "/final/" + index + "/" + streamid + "/" + suffix + "/" (plain concatenation, MkdirAll)
   Api("bulk-index",       "body",      "none",      "concat", "write",  FALSE, 2, TRUE,  FALSE),
+  \* pkg/otlp/logs.go ingestLogs: index := resource attribute "siglensIndexName"; ONE ProcessIndexRequestPle call per ResourceLogs entry,
+  \* all sharing one localIndexMap (AddAndGetRealIndexName puts the resolved name into that map before AddVirtualTable validates it)
+  Api("otlp-logs-index",  "body",      "none",      "concat", "write",  FALSE, 2, TRUE,  FALSE),
+  \* pkg/integrations/splunk ProcessSplunkHecIngestRequest: index := "index" field of every event; AddVirtualTable + AddMappingFromADoc
+  \* per event, then one ProcessIndexRequestPle per distinct index (Loki pushes go to the fixed index "loki-index": no client name)
+  Api("hec-index",        "body",      "none",      "concat", "write",  FALSE, 2, TRUE,  FALSE),
   \* ProcessPutIndex (PUT /elastic/{indexName}, .../_mapping): AddMapping: VTableMappingsDir + name + ".json" (IsNameSafeForPath)
   Api("put-index",        "pathparam", "none",      "concat", "write",  TRUE,  4, TRUE,  FALSE),
   \* ProcessPutPostSingleDocRequest (POST /elastic/{indexName}/_doc): AddVirtualTable, AddMappingFromADoc; segment directories as bulk
@@ -88,9 +101,9 @@ Apis == {
   Api("alias-get",        "pathparam", "none",      "concat", "read",   TRUE,  4, TRUE,  FALSE),
   \* ProcessDeleteIndex (DELETE /elastic/{indexName}): only names present in the virtual-table list are deleted
   Api("index-delete",     "pathparam", "known",     "concat", "delete", FALSE, 2, FALSE, FALSE),
-  \* dashboards.go getDashboard: route parameter {dashboard-id}; DataPath + ".../dashboards/details/" + id + ".json" is read with
-  \* NO check of the id at all (the write-back through refreshFolderMetadata happens only for ids of the folder structure)
-  Api("dashboard-get",    "pathparam", "none",      "concat", "read",   TRUE,  4, FALSE, TRUE),
+  \* dashboards.go getDashboard: route parameter {dashboard-id}; DataPath + ".../dashboards/details/" + id + ".json";
+  \* isDashboardIdSafeForPath since 79f3e7c (the write-back through refreshFolderMetadata happens only for ids of the folder structure)
+  Api("dashboard-get",    "pathparam", "none",      "concat", "read",   TRUE,  4, TRUE,  TRUE),
   \* toggleFavorite / updateDashboard / deleteDashboard: id from the route / JSON body; must be a dashboard of the caller's folder
   \* structure (server-generated uuids)
   Api("dashboard-fav",    "pathparam", "known",     "concat", "write",  TRUE,  4, FALSE, TRUE),
@@ -118,6 +131,9 @@ Names == UNION {[1..n -> Classes] : n \in 1..MaxLen}
 Has(name, c) == \E i \in DOMAIN name : name[i] = c
 Entries(a) == IF a.transport = "pathparam" THEN {"http", "handler"} ELSE {"http"}
 Hists(a) == IF a.store THEN {"fresh", "created", "deleted"} ELSE {"fresh"}
+(* occurrence of the hostile name within ONE request: its first use, or a repeated use (second and later action line / resource /
+   event / datapoint carrying the same name) - per-request caches keyed by the name are consulted from the second use on *)
+Occs(a) == IF a.multi THEN {"first", "repeated"} ELSE {"first"}
 
 (* ---- what the byte-wise checks and the kernel see / what the path is built from ---- *)
 Plainify(name) == [i \in DOMAIN name |-> IF name[i] \in {"lkdot", "lkup", "lksep"} THEN "plain" ELSE name[i]]
@@ -167,29 +183,30 @@ LeavesBase(a, name) == Walk(Canon(a, name), 1, 0) < 0
 (* leaving the base directory by more than its depth below the data directory leaves the data directory; the model is
    conservative: leaving the BASE is already reported, the replay decides where the path really ends *)
 (* a guard = "the name is a single path component": no separator, not "." / "..", no NUL - evaluated on what the check sees *)
-Guarded(a) == GuardMode = "all" \/ a.guard
+Guarded(a, o) == (GuardMode = "all" \/ a.guard)
+                 /\ ~(o = "repeated" /\ a.api \in CacheBeforeGuard)     \* the cached entry is returned, the validation is skipped
 GuardRejects(a, name) == LET n == AsChecked(a, name) IN Has(n, "sep") \/ Has(n, "abs") \/ Has(n, "nul") \/ LeavesBase(a, n)
 
-Resolve(a, e, name, h) ==
+Resolve(a, e, name, h, o) ==
   IF ~Arrives(a, e, name) THEN "NotRouted"
   ELSE IF ~Passes(a, name, h) THEN "Rejected"
   ELSE IF a.build = "fixed" THEN "Confined"
-  ELSE IF Guarded(a) /\ GuardRejects(a, name) THEN "Rejected"
+  ELSE IF Guarded(a, o) /\ GuardRejects(a, name) THEN "Rejected"
   ELSE IF OsRefuses(a, AsUsed(a, name)) THEN "Rejected"
   ELSE IF LeavesBase(a, AsUsed(a, name)) THEN "Escapes"
   ELSE "Confined"
 
-VARIABLES api, entry, hist, name, result, done
-vars == <<api, entry, hist, name, result, done>>
+VARIABLES api, entry, hist, occ, name, result, done
+vars == <<api, entry, hist, occ, name, result, done>>
 (* one initial state per (API, entry point, store history) - lets TLC explore them in parallel; one step: the client sends a name *)
-Init == /\ api \in Apis /\ entry \in Entries(api) /\ hist \in Hists(api)
+Init == /\ api \in Apis /\ entry \in Entries(api) /\ hist \in Hists(api) /\ occ \in Occs(api)
         /\ name = <<>> /\ result = "-" /\ done = FALSE
 Op(n) == /\ ~done
-         /\ name' = n /\ result' = Resolve(api, entry, n, hist) /\ done' = TRUE /\ UNCHANGED <<api, entry, hist>>
+         /\ name' = n /\ result' = Resolve(api, entry, n, hist, occ) /\ done' = TRUE /\ UNCHANGED <<api, entry, hist, occ>>
 Next == \E n \in Names : Op(n)
 Spec == Init /\ [][Next]_vars
 
 (* The property: the resolved path stays under the data directory or the operation is rejected. *)
 Confined == result \in {"-", "Confined", "Rejected", "NotRouted"}
-TypeOK == done \in BOOLEAN /\ entry \in {"http", "handler"} /\ hist \in {"fresh", "created", "deleted"}
+TypeOK == done \in BOOLEAN /\ entry \in {"http", "handler"} /\ hist \in {"fresh", "created", "deleted"} /\ occ \in {"first", "repeated"}
 =============================================================================
